@@ -73,7 +73,7 @@ R_DISTINCT = '; distinct = distinct abstract traces (hash of the per-step op / f
 reg(Spec('C02', ['c02:C02'],
          quick=[('DUPLEX', 1500), ('HDR', 1500), ('UPGRADE', 300), ('RACE', 500)],
          thorough=[('DUPLEX', 30000), ('HDR', 30000), ('UPGRADE', 5000), ('RACE', 10000)],
-         overrides={'*': {'push': 0.15, 'rsv': 1.5, 'misuse': 0.15, 'misuse_focus': [4, 0], 'aftermath': 0.3}},
+         overrides={'*': {'push': 0.15, 'rsv': 1.5, 'misuse': 0.15, 'misuse_focus': [4, 0], 'aftermath': 0.3, 'boundary': 0.25}},
          rule=R_RUN + 'non-trivial = a header block of >= 2 fragments, padding, or priority fields was emitted' + R_DISTINCT))
 reg(Spec('C03', ['c03:C03'],
          quick=[('FLOW', 2000), ('RACE', 800), ('DUPLEX', 800)],
@@ -92,7 +92,8 @@ reg(Spec('C05', ['c05:C05'],
 reg(Spec('C07', ['c07:C07'],
          quick=[('ADV', 2000), ('CORRUPT', 1500), ('DUPLEX', 500)],
          thorough=[('ADV', 50000), ('CORRUPT', 30000), ('DUPLEX', 10000), ('RACE', 10000)],
-         overrides={'ADV': {'misuse': 0.15, 'misuse_focus': [0, 0, 4], 'at_limit_attempts': 0.3}},
+         overrides={'ADV': {'misuse': 0.15, 'misuse_focus': [0, 0, 4], 'at_limit_attempts': 0.3, 'config_matrix': 0.4},
+                    'CORRUPT': {'config_matrix': 0.3}},
          rule=R_RUN + 'non-trivial = events were produced from a direction touched by the adversary or a fault' + R_DISTINCT))
 reg(Spec('C18', ['c18:C18'],
          quick=[('CORRUPT', 2000), ('ADV', 2000), ('DUPLEX', 300)],
@@ -132,7 +133,7 @@ reg(Spec('C13', ['c13:C13'],
          thorough=[('HDR', 60000), ('DUPLEX', 20000), ('RACE', 10000)],
          overrides={'*': {'matrix_outbound': True, 'small_closed': 0.0, 'small_backlog': False, 'misuse': 0.3,
                           'misuse_focus': [0, 4, 4, 14], 'push': 0.2, 'ops_boost': {'push': 3}, 'at_limit_attempts': 0.4,
-                          'settings_bias': {3: [1, 2, 100]}, 'aftermath': 0.3}},
+                          'settings_bias': {3: [1, 2, 100]}, 'aftermath': 0.3, 'boundary': 0.25}},
          rule=R_RUN + 'non-trivial = a header-carrying call raised and a later one on the same endpoint succeeded' + R_DISTINCT))
 reg(Spec('C14', ['c14:C14'],
          quick=[('HDR', 3000), ('DUPLEX', 500)],
@@ -154,7 +155,7 @@ reg(Spec('C08', ['c08:C08'],
          quick=[('MISUSE', 2500), ('DUPLEX', 800), ('UPGRADE', 500)],
          thorough=[('MISUSE', 60000), ('DUPLEX', 20000), ('UPGRADE', 10000)],
          overrides={'MISUSE': {'misuse_focus': [0, 0, 4, 4, 14, 1, 2], 'push': 0.2, 'ops_boost': {'push': 3}, 'aftermath': 0.4,
-                               'hdr_variety': 1.0}},
+                               'hdr_variety': 1.0, 'config_matrix': 0.4, 'misuse_focus': [0, 0, 4, 4, 14, 1, 2, 12, 12]}},
          rule=R_RUN + 'non-trivial = at least one ordering call (headers/data/end/push/prioritize/alt-svc) was refused' + R_DISTINCT))
 reg(Spec('C09', ['c09:C09'],
          quick=[('DUPLEX', 1200), ('RACE', 800), ('ADV', 2000), ('MISUSE', 600)],
@@ -177,7 +178,8 @@ reg(Spec('C22', ['c22:C22'],
 reg(Spec('C23', ['c23:C23'],
          quick=[('DUPLEX', 1500), ('ADV', 2000), ('MISUSE', 500), ('HDR', 800)],
          thorough=[('DUPLEX', 30000), ('ADV', 50000), ('MISUSE', 10000), ('HDR', 20000)],
-         overrides={'*': {'prio_open': 0.5, 'ops_boost': {'prio': 3}}, 'HDR': {'prio_open': 0.6, 'big_headers': 0.4, 'config_matrix': 0.0},
+         overrides={'*': {'prio_open': 0.5, 'ops_boost': {'prio': 3}, 'boundary': 0.2},
+                    'HDR': {'prio_open': 0.6, 'big_headers': 0.4, 'config_matrix': 0.0, 'boundary': 0.3},
                     'ADV': {'prio_open': 0.5, 'big_headers': 0.2}},
          rule=R_RUN + 'non-trivial = invalid priority arguments, a self-dependency, or PRIORITY on an idle/closed stream' + R_DISTINCT))
 reg(Spec('C24', ['c24:C24'],
